@@ -1,0 +1,7 @@
+//go:build !verif
+
+package wasm
+
+// VerifYield is a schedule point used by the verification harness; without the verif build tag it is an
+// empty function that the compiler inlines away.
+func VerifYield(tag string, m *ModuleInstance) {}
